@@ -89,6 +89,27 @@ func runC20On(r *Run, rng *Rng, thorough bool, d *ClaimsDesc, first bool) {
 			res = "accept"
 		}
 		r.Case(class, false, "envelope "+hx(b), res)
+		// the verdict does not depend on what the Evidence held before: the same bytes into an Evidence that already
+		// carries claims (attached, or left by an earlier successful decode)
+		if !pan {
+			for hi, prep := range []func() *psa.Evidence{
+				func() *psa.Evidence { ev := &psa.Evidence{}; _ = ev.SetClaims(d.Build()); return ev },
+				func() *psa.Evidence { ev := &psa.Evidence{}; _ = ev.UnmarshalCOSE(append([]byte{}, tok...)); return ev },
+			} {
+				ev := prep()
+				var herr error
+				hpan, _ := safely(func() { herr = ev.UnmarshalCOSE(append([]byte{}, b...)) })
+				hres := "reject"
+				if hpan {
+					hres = "panic"
+				} else if herr == nil {
+					hres = "accept"
+				}
+				if hres != res {
+					r.Fail("accepts-only-sign1", fmt.Sprintf("UnmarshalCOSE on an Evidence that already holds claims (history %d): %s, on a fresh Evidence: %s", hi, hres, res))
+				}
+			}
+		}
 		if res == "accept" {
 			if ok, why := sign1Shape(b); !ok {
 				sig := ""
